@@ -1004,3 +1004,79 @@ Print Assumptions C15_sete_calls_at_nonvacuous.
 Print Assumptions C15_sete_calls_stops.
 Print Assumptions C15_sete_calls_nonvacuous.
 
+
+(** ---- Round 9 (pegfuel): the fuel disjunct / hypothesis of the text theorems is discharged by the generic
+    termination theorem of Proofs/PegFuel.v on the regenerated grammar (C14_parse_never_fuel): parse_from
+    never answers PFuel. ---- *)
+From Cicada Require Proofs.PegFuel Proofs.PegFuelInst.
+
+Theorem C15_parse_never_fuel : forall start s, parse_from l_grammar start s <> PFuel.
+Proof. exact PegFuelInst.l_parse_never_fuel. Qed.
+
+Theorem C15_flat_text_parsed_total : forall b, frag_flat b = true ->
+  exists ls, flat_lines b = Some ls /\ flat_parsed (render_block b) ls.
+Proof.
+  intros b H. destruct (C15_flat_text_parsed b H) as [F|P]; [|exact P].
+  exfalso. exact (C15_parse_never_fuel _ _ F).
+Qed.
+Check C15_flat_text_parsed_total : forall b, frag_flat b = true ->
+  exists ls, flat_lines b = Some ls /\ flat_parsed (render_block b) ls.
+
+Theorem C15_indented_text_parsed_total : forall b ls, fragI_block b = true -> cmd_lines b = Some ls ->
+  flat_parsed (render_block b) ls.
+Proof.
+  intros b ls H C. destruct (C15_indented_text_parsed b ls H C) as [F|P]; [|exact P].
+  exfalso. exact (C15_parse_never_fuel _ _ F).
+Qed.
+Check C15_indented_text_parsed_total : forall b ls, fragI_block b = true -> cmd_lines b = Some ls ->
+  flat_parsed (render_block b) ls.
+
+Theorem C15_indented_blank_text_parsed_total : forall b ls, fragI_block b = true -> body_lines b = Some ls ->
+  flat_parsed (render_block b) (filter nonempty_l ls).
+Proof.
+  intros b ls H C. destruct (C15_indented_blank_text_parsed b ls H C) as [F|P]; [|exact P].
+  exfalso. exact (C15_parse_never_fuel _ _ F).
+Qed.
+Check C15_indented_blank_text_parsed_total : forall b ls, fragI_block b = true -> body_lines b = Some ls ->
+  flat_parsed (render_block b) (filter nonempty_l ls).
+
+Theorem C15_sete_calls_text_total : forall ext file_text n ft rt, tab_ok ft rt ->
+  forall fuel b ls w e' tr st, frag_flat b = true ->
+  flat_lines b = Some ls -> forallb ok_line ls = true -> s_funcs w = ft ->
+  refl ext rt fuel ls (s_eoe w) 0%Z = Some (e', tr, st) ->
+  exists sts,
+    run_lines shs (exec_line ext file_text n fuel) no_words no_setvar s_eoe n (render_block b) w =
+      Some (Done (mk_shs e' ft (s_log w ++ tr)) sts false false)
+    /\ script_status sts = st.
+Proof.
+  intros ext file_text n ft rt Htab fuel b ls w e' tr st Hfr Hfl Hok Hf Hr.
+  exact (C15_sete_calls_text ext file_text n ft rt Htab fuel b ls w e' tr st Hfr (C15_parse_never_fuel _ _) Hfl Hok Hf Hr).
+Qed.
+Check C15_sete_calls_text_total : forall ext file_text n ft rt, tab_ok ft rt ->
+  forall fuel b ls w e' tr st, frag_flat b = true ->
+  flat_lines b = Some ls -> forallb ok_line ls = true -> s_funcs w = ft ->
+  refl ext rt fuel ls (s_eoe w) 0%Z = Some (e', tr, st) ->
+  exists sts,
+    run_lines shs (exec_line ext file_text n fuel) no_words no_setvar s_eoe n (render_block b) w =
+      Some (Done (mk_shs e' ft (s_log w ++ tr)) sts false false)
+    /\ script_status sts = st.
+
+Theorem C15_sete_calls_text_indented_total : forall ext file_text n ft rt, tab_ok ft rt ->
+  forall fuel b ls w e' tr st, fragI_block b = true -> cmd_lines b = Some ls ->
+  forallb ok_line ls = true -> s_funcs w = ft ->
+  refl ext rt fuel ls (s_eoe w) 0%Z = Some (e', tr, st) ->
+  exists sts,
+    run_lines shs (exec_line ext file_text n fuel) no_words no_setvar s_eoe n (render_block b) w =
+      Some (Done (mk_shs e' ft (s_log w ++ tr)) sts false false)
+    /\ script_status sts = st.
+Proof.
+  intros ext file_text n ft rt Htab fuel b ls w e' tr st Hfr Hc Hok Hf Hr.
+  exact (C15_sete_calls_text_indented ext file_text n ft rt Htab fuel b ls w e' tr st Hfr Hc (C15_parse_never_fuel _ _) Hok Hf Hr).
+Qed.
+
+Print Assumptions C15_parse_never_fuel.
+Print Assumptions C15_flat_text_parsed_total.
+Print Assumptions C15_indented_text_parsed_total.
+Print Assumptions C15_indented_blank_text_parsed_total.
+Print Assumptions C15_sete_calls_text_total.
+Print Assumptions C15_sete_calls_text_indented_total.
